@@ -8,7 +8,8 @@
 //	    x.Unlock()      ->  x.Unlock(); yield("unlock")
 //	R3  yield before every simple statement that contains a WaitGroup call,
 //	    close(), a channel send or receive, or a select; and after it when it
-//	    can block (so a woken goroutine parks again at once).
+//	    can block (so a woken goroutine parks again at once); at the top of the
+//	    body of a "for x := range ch".
 package main
 
 import (
@@ -678,6 +679,13 @@ func (rw *rewriter) rewriteRange(r *ast.RangeStmt) {
 func (rw *rewriter) walkFile(f *ast.File) {
 	ast.Inspect(f, func(n ast.Node) bool {
 		if r, ok := n.(*ast.RangeStmt); ok {
+			// R3 for "for x := range ch": every value received is a scheduling point (the top of the body)
+			if tv, ok := rw.info.Types[r.X]; ok && tv.Type != nil && r.Body != nil {
+				if _, isChan := tv.Type.Underlying().(*types.Chan); isChan {
+					r.Body.List = append([]ast.Stmt{rw.yield("woken", r.Body.Lbrace)}, r.Body.List...)
+					rw.stats["chanrange"]++
+				}
+			}
 			rw.rewriteRange(r)
 		}
 		switch b := n.(type) {
